@@ -225,6 +225,22 @@ def run (case impl : String) : String × String :=
       else if got == some "old" then "viol:C19:refresh-did-not-replace-the-entry"
       else if got == some "miss" then "viol:C07:live-entry-missed"
       else "unparsed")
+  -- the ttl of an answer that comes back from a slow GET, judged when the lookup returns (the harness compares
+  -- with the upstream's ttl minus the whole seconds since the store)
+  | some "slowget" =>
+    let ok := kvGet (words ((impl.splitOn " ## ").headD "")) "ok"
+    ("ok=1", if impl == "panic" then "viol:panic"
+      else if ok == some "1" then "ok"
+      else if ok == some "0" then "viol:C08:ttl-not-aged-by-the-time-of-the-lookup"
+      else "unparsed")
+  -- a redis outage between the positive and the error response
+  | some "outage" =>
+    let got := kvGet (words impl) "got"
+    ("got=pos", if impl == "panic" then "viol:panic"
+      else if got == some "pos" then "ok"
+      else if got == some "neg" then "viol:C08:error-response-displaced-live-positive"
+      else if got == some "miss" then "viol:C07:live-entry-missed"
+      else "unparsed")
   -- redis only: the cache is in use from the moment the client has connected
   | some "rstart" =>
     let got := kvGet (words impl) "got"
